@@ -45,10 +45,10 @@ func runC07(c *Ctx) {
 	c.Rule(re, "Certificate constructions put the leaf first; Chain() emits the leaf first", 4)
 
 	exceptions := map[string]string{
-		"lib/certloader.ParsePKCS12":      "pairing is done by the PKCS#12 decoder; signing re-enters LoadTokenCertificates through signinit.InitKey",
-		"cmdline/token.importKeyCmd":      "key import: no signature is produced from this object",
-		"cmdline/token.makeKey":           "builds a fresh PGP certificate whose public key is key.Public() of the very key stored",
-		"lib/pgptools.MergeClearSign":     "fake signer (fakeSigner{}) used only to re-create the clear-sign framing around an existing detached signature; produces no signature value",
+		"lib/certloader.ParsePKCS12":  "pairing is done by the PKCS#12 decoder; signing re-enters LoadTokenCertificates through signinit.InitKey",
+		"cmdline/token.importKeyCmd":  "key import: no signature is produced from this object",
+		"cmdline/token.makeKey":       "builds a fresh PGP certificate whose public key is key.Public() of the very key stored",
+		"lib/pgptools.MergeClearSign": "fake signer (fakeSigner{}) used only to re-create the clear-sign framing around an existing detached signature; produces no signature value",
 	}
 	// ---- R07a
 	n := 0
@@ -160,6 +160,10 @@ func runC07(c *Ctx) {
 
 	// ---- R07e leaf first
 	c07LeafFirst(c, re)
+
+	// ---- R07f the key cache hands out only the key that was asked for
+	c.Rule("R07f", "the key cache returns a key taken from shared state only un-pinned or id-equal; a miss returns the key fetched by this very call", 3)
+	keyCacheRule(c, "R07f")
 }
 
 func shortType(t string) string {
